@@ -515,6 +515,11 @@ CHECKS = {
          "the deprecated absolute UserFormURL is not exercised"],
         world=True),
     "C20": c20_check,
+    "C05": composed_check("C05",
+        [dict(module="Assertion", sub="tbl-assertion", prefixes=("C05.",), sig=lambda o: c14a_sig(o), need=lambda o: c14a_need(o),
+              label="JWT assertion table (private_key_jwt client authentication)", required=["codeP:accept", "codeL:accept", "codeP:reject", "codeL:reject"])],
+        ["private_key_jwt: spec/Assertion.tla, rule C05.assertion.client - a code / a token of the probe client is served on an assertion only when the assertion is "
+         "signed with a key held for that client and names it as issuer (verifiers with and without subject delegation)"]),
     "C04": composed_check("C04",
         [dict(module="RequestObject", sub="tbl-reqobj", prefixes=("C04.",), sig=lambda o: c14r_sig(o) + f":qpkce={o['c']['qpkce']}:opkce={o['c']['opkce']}", need=lambda o: c14r_need(o),
               label="request object table (PKCE challenge of the stored request)", required=["P:login:obj", "L:login:obj"])],
